@@ -32,7 +32,7 @@ RUN_WALL = 30
 HARD_WALL = 600
 
 PROFILE = dict(
-    p_pool_l=0.25, p_pool_s=0.15, ckpt=True, p_long_sampling=0.2,
+    p_pool_l=0.25, p_pool_s=0.15, ckpt=True, p_long_sampling=0.2, p_frequent_bounds=0.2,
     fault_kinds=['stop_resume', 'stop_resume', 'stop_resume', 'kill', 'kill',
                  'slice', 'timeout', 'observe'])
 
@@ -87,7 +87,8 @@ def run_chain(args):
         out['status'] = 'discarded'
         out['why'] = twin['status'] + ':' + str(twin.get('error'))[:200]
         return out
-    ops = e1.draw_history(rng, cfg, twin['timeline'], PROFILE)
+    ops = e1.draw_history(rng, cfg, twin['timeline'], PROFILE,
+                          twin.get('probes'))
     r = rng.random()
     if r < 0.12:
         # a leftover checkpoint of an earlier computation sits at the path;
